@@ -543,6 +543,9 @@ func (e *execState) directOracles(bo *blockObs) {
 			if old.Bidder != b.Bidder || old.Type != b.Type || old.AuctionID != b.AuctionID {
 				V("C19", "bid.identity_changed", "bid", fmt.Sprintf("auction %d bid %d changed owner/type: %+v -> %+v", a.ID, b.ID, old, b))
 				V("C11", "bid.identity_changed", "bid", fmt.Sprintf("auction %d bid %d changed owner/type", a.ID, b.ID))
+				if _, ok := a.Allowed[b.Bidder]; !ok && old.Bidder != b.Bidder {
+					V("C10", "bid.without_entry", "rewritten", fmt.Sprintf("auction %d bid %d is now recorded for %s who has no allow-list entry", a.ID, b.ID, short(b.Bidder)))
+				}
 			}
 			if old.Denom != b.Denom {
 				V("C11", "bid.denom_changed", "bid", fmt.Sprintf("auction %d bid %d changed denomination %s -> %s", a.ID, b.ID, old.Denom, b.Denom))
